@@ -371,4 +371,450 @@ theorem cal_part (n f : Str) (get : CalOpt → Option Nat) (lo hi : Nat)
         · intro k hk
           exact headConsumes_of_digitOnly rx hdo _ hh k (hk hnd)
 
+/-! ### the three unbounded shapes -/
+
+theorem hc_digitsPlus (ds k : Str) (hne : ds ≠ []) (hd : allDigits ds = true) (hk : NoDigitAhead k) :
+    HeadConsumes (.rep digitCls 1 none) ds k := by
+  intro st hst
+  have hlen : 1 ≤ ds.length := List.length_pos_iff.mpr hne
+  obtain ⟨st', tl, hm, hr, hc⟩ := mRep_digits_head k hk ds hd st.rest.length 1 st
+    (by rw [hst]; simp) hlen hst
+  exact ⟨st', by simp only [Re.m]; rw [hm]; rfl, hr, hc⟩
+
+theorem hc_posInt (c : Char) (ds k : Str) (hc : isDigit c = true) (h0 : c ≠ '0')
+    (hd : allDigits ds = true) (hk : NoDigitAhead k) :
+    HeadConsumes (.seq posDigitCls (.rep digitCls 0 none)) (c :: ds) k := by
+  intro st hst
+  have hst' : st.rest = c :: (ds ++ k) := by simpa using hst
+  have h1 := posDigitCls_m_cons st c (ds ++ k) hst' hc h0
+  obtain ⟨st', tl, hm, hr, hcp⟩ := mRep_digits_head k hk ds hd (ds ++ k).length 0
+    (st.step (ds ++ k)) (by simp) (by omega) rfl
+  refine ⟨st', ?_, hr, hcp⟩
+  simp only [Re.m] at h1 ⊢
+  rw [h1]
+  simp only [List.flatMap_cons, List.flatMap_nil, List.append_nil]
+  have : (st.step (ds ++ k)).rest.length = (ds ++ k).length := rfl
+  rw [this, hm]; rfl
+
+theorem hc_posFixed (c : Char) (ds k : Str) (hc : isDigit c = true) (h0 : c ≠ '0')
+    (hd : allDigits ds = true) :
+    HeadConsumes (.seq posDigitCls (.rep digitCls ds.length (some ds.length))) (c :: ds) k := by
+  intro st hst
+  have hst' : st.rest = c :: (ds ++ k) := by simpa using hst
+  have h1 := posDigitCls_m_cons st c (ds ++ k) hst' hc h0
+  obtain ⟨st', tl, hm, hr, hcp⟩ := mRep_digits_exact k ds hd (ds ++ k).length
+    (st.step (ds ++ k)) (by simp) rfl
+  refine ⟨st', ?_, hr, hcp⟩
+  simp only [Re.m] at h1 ⊢
+  rw [h1]
+  simp only [List.flatMap_cons, List.flatMap_nil, List.append_nil]
+  have : (st.step (ds ++ k)).rest.length = (ds ++ k).length := rfl
+  rw [this, hm]; rfl
+
+/-! ### ordered alternations of literal words (TAG, PYTAG) -/
+
+/-- a literal word as `parseRe` builds it -/
+def litRe : Str → Re
+  | [] => .eps
+  | [c] => .chr c
+  | c :: d :: cs => .seq (.chr c) (litRe (d :: cs))
+
+/-- `w1|w2|…` as `parseRe` builds it -/
+def altLits : List Str → Re
+  | [] => .eps
+  | [w] => litRe w
+  | w :: w2 :: ws => .alt (litRe w) (altLits (w2 :: ws))
+
+/-- the two words differ at a position inside both -/
+def incomp : Str → Str → Bool
+  | a :: as, b :: bs => a != b || incomp as bs
+  | _, _ => false
+
+theorem incomp_self : ∀ t : Str, incomp t t = false := by
+  intro t
+  induction t with
+  | nil => rfl
+  | cons a as iha => simp [incomp, iha]
+
+theorem litRe_m_prefix : ∀ (w k : Str) (st : MSt), w ≠ [] → st.rest = w ++ k →
+    (litRe w).m st = [st.step k] := by
+  intro w
+  induction w with
+  | nil => intro k st h; exact absurd rfl h
+  | cons c cs ih =>
+    intro k st _ hst
+    cases cs with
+    | nil => simp [litRe, Re.m, hst]
+    | cons d ds =>
+      have hst' : st.rest = c :: (d :: ds ++ k) := by simpa using hst
+      simp only [litRe, Re.m, hst', beq_self_eq_true, ↓reduceIte, List.flatMap_cons,
+        List.flatMap_nil, List.append_nil]
+      rw [ih k (st.step (d :: ds ++ k)) (by simp) rfl]
+      rfl
+
+theorem litRe_m_incomp : ∀ (w t k : Str) (st : MSt), incomp w t = true → st.rest = t ++ k →
+    (litRe w).m st = [] := by
+  intro w
+  induction w with
+  | nil => intro t k st h; simp [incomp] at h
+  | cons c cs ih =>
+    intro t k st h hst
+    cases t with
+    | nil => simp [incomp] at h
+    | cons b bs =>
+      have hst' : st.rest = b :: (bs ++ k) := by simpa using hst
+      simp only [incomp, Bool.or_eq_true, bne_iff_ne, ne_eq] at h
+      by_cases hcb : b = c
+      · subst hcb
+        have h2 : incomp cs bs = true := by
+          rcases h with h | h
+          · exact absurd rfl h
+          · exact h
+        cases cs with
+        | nil => simp [incomp] at h2
+        | cons d ds =>
+          simp only [litRe, Re.m, hst', beq_self_eq_true, ↓reduceIte, List.flatMap_cons,
+            List.flatMap_nil, List.append_nil]
+          exact ih bs k (st.step (bs ++ k)) h2 rfl
+      · have hne : (b == c) = false := by rw [beq_eq_false_iff_ne]; exact hcb
+        cases cs with
+        | nil => simp [litRe, Re.m, hst', hne]
+        | cons d ds => simp [litRe, Re.m, hst', hne]
+
+theorem altLits_head : ∀ (ws : List Str) (t k : Str), t ∈ ws → t ≠ [] →
+    (∀ w ∈ ws, w = t ∨ incomp w t = true) → HeadConsumes (altLits ws) t k := by
+  intro ws
+  induction ws with
+  | nil => intro t k h; simp at h
+  | cons w ws ih =>
+    intro t k hmem hne hall st hst
+    cases ws with
+    | nil =>
+      have : t = w := by simpa using hmem
+      subst this
+      refine ⟨st.step k, ?_, rfl, rfl⟩
+      simp only [altLits]
+      rw [litRe_m_prefix t k st hne hst]; rfl
+    | cons w2 ws' =>
+      simp only [altLits, Re.m]
+      rcases hall w (by simp) with hw | hw
+      · subst hw
+        refine ⟨st.step k, ?_, rfl, rfl⟩
+        rw [litRe_m_prefix w k st hne hst]; rfl
+      · rw [litRe_m_incomp w t k st hw hst, List.nil_append]
+        have hmem' : t ∈ w2 :: ws' := by
+          rcases List.mem_cons.mp hmem with h | h
+          · subst h
+            have := incomp_self t
+            rw [this] at hw; cases hw
+          · exact h
+        exact ih t k hmem' hne (fun w' hw' => hall w' (List.mem_cons_of_mem _ hw')) st hst
+
+/-- decidable side condition of `altLits_head` -/
+def wordsOk (ws : List Str) (t : Str) : Bool :=
+  ws.contains t && !t.isEmpty && ws.all (fun w => w == t || incomp w t)
+
+theorem altLits_head' (ws : List Str) (t k : Str) (h : wordsOk ws t = true) :
+    HeadConsumes (altLits ws) t k ∧ t ≠ [] := by
+  simp only [wordsOk, Bool.and_eq_true, List.contains_iff_mem, Bool.not_eq_true',
+    List.isEmpty_eq_false_iff, List.all_eq_true, Bool.or_eq_true, beq_iff_eq] at h
+  exact ⟨altLits_head ws t k h.1.1 h.1.2 h.2, h.1.2⟩
+
+/-! ### the remaining part families -/
+
+/-- MAJOR MINOR PATCH NUM INC0: `[0-9]+` / `str(n)` -/
+theorem nat_part (n f : Str) (get : VInfo → Nat) (hf : lookup n Gen.partFields = some f)
+    (hkd : lookup n Gen.partFormats = some .str) (hget : ∀ v : VInfo, v.get f = .nat (get v))
+    (hre : partReOf n = some (.rep digitCls 1 none)) (v : VInfo)
+    (rx : Re) (hrx : partReOf n = some rx) (nd : Bool) (hnd : nd = true) : PartHead v n rx nd := by
+  rw [hre] at hrx
+  have hrx := (Option.some.inj hrx).symm
+  subst hrx
+  refine ⟨natToStr (get v), ?_, natToStr_ne_nil _, ?_⟩
+  · simp only [partText, hf, hkd, hget]; rfl
+  · intro k hk
+    exact hc_digitsPlus _ k (natToStr_ne_nil _) (allDigits_natToStr _) (hk hnd)
+
+/-- INC1: `[1-9][0-9]*` / `str(n)`, n ≥ 1 -/
+theorem pos_part (n f : Str) (get : VInfo → Nat) (hf : lookup n Gen.partFields = some f)
+    (hkd : lookup n Gen.partFormats = some .str) (hget : ∀ v : VInfo, v.get f = .nat (get v))
+    (hre : partReOf n = some (.seq posDigitCls (.rep digitCls 0 none))) (v : VInfo)
+    (hpos : 1 ≤ get v)
+    (rx : Re) (hrx : partReOf n = some rx) (nd : Bool) (hnd : nd = true) : PartHead v n rx nd := by
+  rw [hre] at hrx
+  have hrx := (Option.some.inj hrx).symm
+  subst hrx
+  refine ⟨natToStr (get v), ?_, natToStr_ne_nil _, ?_⟩
+  · simp only [partText, hf, hkd, hget]; rfl
+  · intro k hk
+    have hd := allDigits_natToStr (get v)
+    have hh := natToStr_head_ne_zero (get v) (by omega)
+    have hne := natToStr_ne_nil (get v)
+    generalize natToStr (get v) = s at hd hh hne
+    cases s with
+    | nil => exact absurd rfl hne
+    | cons c t =>
+      rw [allDigits_cons] at hd
+      exact hc_posInt c t k hd.1 (hh c t rfl) hd.2 (hk hnd)
+
+/-- BUILD: `[0-9]+` / the id verbatim -/
+theorem build_part (v : VInfo) (hb : isDigitStr v.bid = true)
+    (hre : partReOf "BUILD".toList = some (.rep digitCls 1 none))
+    (rx : Re) (hrx : partReOf "BUILD".toList = some rx) (nd : Bool) (hnd : nd = true) :
+    PartHead v "BUILD".toList rx nd := by
+  rw [hre] at hrx
+  have hrx := (Option.some.inj hrx).symm
+  subst hrx
+  rw [isDigitStr_iff] at hb
+  refine ⟨v.bid, rfl, hb.1, ?_⟩
+  intro k hk
+  exact hc_digitsPlus _ k hb.1 hb.2 (hk hnd)
+
+/-- BLD: `[1-9][0-9]*` / `str(int(bid))`, only for a non-zero id -/
+theorem bld_part (v : VInfo) (hpos : 1 ≤ strToNat v.bid)
+    (hre : partReOf "BLD".toList = some (.seq posDigitCls (.rep digitCls 0 none)))
+    (rx : Re) (hrx : partReOf "BLD".toList = some rx) (nd : Bool) (hnd : nd = true) :
+    PartHead v "BLD".toList rx nd := by
+  rw [hre] at hrx
+  have hrx := (Option.some.inj hrx).symm
+  subst hrx
+  refine ⟨natToStr (strToNat v.bid), rfl, natToStr_ne_nil _, ?_⟩
+  intro k hk
+  have hd := allDigits_natToStr (strToNat v.bid)
+  have hh := natToStr_head_ne_zero (strToNat v.bid) (by omega)
+  have hne := natToStr_ne_nil (strToNat v.bid)
+  generalize natToStr (strToNat v.bid) = s at hd hh hne
+  cases s with
+  | nil => exact absurd rfl hne
+  | cons c t =>
+    rw [allDigits_cons] at hd
+    exact hc_posInt c t k hd.1 (hh c t rfl) hd.2 (hk hnd)
+
+/-- YYYY / GGGG: `[1-9][0-9]{3}` / `str(y)`, 1000..9999, WHATEVER follows -/
+theorem year_part (n f : Str) (get : CalOpt → Option Nat) (hf : lookup n Gen.partFields = some f)
+    (hkd : lookup n Gen.partFormats = some .str) (hget : ∀ v : VInfo, v.get f = optNat (get v.cal))
+    (hre : partReOf n = some (.seq posDigitCls (.rep digitCls 3 (some 3)))) (v : VInfo)
+    (hok : optIn (get v.cal) 1000 9999 = true)
+    (rx : Re) (hrx : partReOf n = some rx) (nd : Bool) : PartHead v n rx nd := by
+  rw [hre] at hrx
+  have hrx := (Option.some.inj hrx).symm
+  subst hrx
+  cases hx : get v.cal with
+  | none => rw [hx] at hok; cases hok
+  | some y =>
+    rw [hx] at hok
+    simp only [optIn, Bool.and_eq_true, decide_eq_true_eq] at hok
+    refine ⟨natToStr y, ?_, natToStr_ne_nil _, ?_⟩
+    · simp only [partText, hf, hkd, hget, hx, optNat]; rfl
+    · intro k _
+      have hlen := natToStr_length_eq 3 y (by omega) (by omega)
+      have hd := allDigits_natToStr y
+      have hh := natToStr_head_ne_zero y (by omega)
+      generalize natToStr y = s at hd hlen hh
+      cases s with
+      | nil => simp at hlen
+      | cons c t =>
+        rw [allDigits_cons] at hd
+        have ht : t.length = 3 := by simpa using hlen
+        have := hc_posFixed c t k hd.1 (hh c t rfl) hd.2
+        rw [ht] at this
+        exact this
+
+/-! ### the domain table and the dispatcher -/
+
+def tagOk (v : VInfo) : Bool := Gen.validReleaseTagValues.contains v.tag
+
+/-- PYTAG is rendered: the tag is a CLI release tag other than `final`, and `pytag` is its
+    image under `PEP440_TAG_BY_TAG` -/
+def pytagOk (v : VInfo) : Bool :=
+  tagOk v && (lookup v.tag Gen.pep440TagByTag == some v.pytag) && !v.pytag.isEmpty
+
+/-- the domain of every supported part (GITHASH / HEXHASH are absent: outside the language) -/
+def partDoms : List (Str × (VInfo → Bool)) := [
+  ("YYYY".toList, fun v => optIn v.cal.yearY 1000 9999),
+  ("YY".toList, fun v => optIn v.cal.yearY 2001 2099),
+  ("0Y".toList, fun v => optIn v.cal.yearY 2000 2099),
+  ("GGGG".toList, fun v => optIn v.cal.yearG 1000 9999),
+  ("GG".toList, fun v => optIn v.cal.yearG 2001 2099),
+  ("0G".toList, fun v => optIn v.cal.yearG 2000 2099),
+  ("Q".toList, fun v => optIn v.cal.quarter 1 4),
+  ("MM".toList, fun v => optIn v.cal.month 1 12),
+  ("0M".toList, fun v => optIn v.cal.month 1 12),
+  ("DD".toList, fun v => optIn v.cal.dom 1 31),
+  ("0D".toList, fun v => optIn v.cal.dom 1 31),
+  ("JJJ".toList, fun v => optIn v.cal.doy 1 366),
+  ("00J".toList, fun v => optIn v.cal.doy 1 366),
+  ("WW".toList, fun v => optIn v.cal.weekW 0 52),
+  ("0W".toList, fun v => optIn v.cal.weekW 0 52),
+  ("UU".toList, fun v => optIn v.cal.weekU 0 52),
+  ("0U".toList, fun v => optIn v.cal.weekU 0 52),
+  ("VV".toList, fun v => optIn v.cal.weekV 1 53),
+  ("0V".toList, fun v => optIn v.cal.weekV 1 53),
+  ("MAJOR".toList, fun _ => true),
+  ("MINOR".toList, fun _ => true),
+  ("PATCH".toList, fun _ => true),
+  ("NUM".toList, fun _ => true),
+  ("INC0".toList, fun _ => true),
+  ("INC1".toList, fun v => decide (1 ≤ v.inc1)),
+  ("BUILD".toList, fun v => isDigitStr v.bid),
+  ("BLD".toList, fun v => isDigitStr v.bid && decide (1 ≤ strToNat v.bid)),
+  ("TAG".toList, tagOk),
+  ("PYTAG".toList, pytagOk)]
+
+/-- the field of part `n` lies in the domain on which recogniser and renderer agree -/
+def partOk (v : VInfo) (n : Str) : Bool :=
+  match lookup n partDoms with
+  | some d => d v
+  | none => false
+
+/-- parts whose recogniser is variable-width or (for simplicity) any calendar alternation: the
+    next rendered character must not be a digit.  YYYY / GGGG (fixed four digits) and the tags
+    (no alternative is a prefix of another) need no such condition. -/
+def needND (n : Str) : Bool :=
+  !(["YYYY".toList, "GGGG".toList, "TAG".toList, "PYTAG".toList].contains n)
+
+def tagWords : List Str := ["preview", "final", "dev", "alpha", "beta", "post", "rc"].map String.toList
+def pytagWords : List Str := ["dev", "post", "rc", "a", "b"].map String.toList
+
+theorem re_digitsPlus :
+    partReOf "MAJOR".toList = some (.rep digitCls 1 none) ∧
+    partReOf "MINOR".toList = some (.rep digitCls 1 none) ∧
+    partReOf "PATCH".toList = some (.rep digitCls 1 none) ∧
+    partReOf "NUM".toList = some (.rep digitCls 1 none) ∧
+    partReOf "INC0".toList = some (.rep digitCls 1 none) ∧
+    partReOf "BUILD".toList = some (.rep digitCls 1 none) := by
+  refine ⟨?_, ?_, ?_, ?_, ?_, ?_⟩ <;> decide +kernel
+
+theorem re_posInt :
+    partReOf "INC1".toList = some (.seq posDigitCls (.rep digitCls 0 none)) ∧
+    partReOf "BLD".toList = some (.seq posDigitCls (.rep digitCls 0 none)) := by
+  refine ⟨?_, ?_⟩ <;> decide +kernel
+
+theorem re_year4 :
+    partReOf "YYYY".toList = some (.seq posDigitCls (.rep digitCls 3 (some 3))) ∧
+    partReOf "GGGG".toList = some (.seq posDigitCls (.rep digitCls 3 (some 3))) := by
+  refine ⟨?_, ?_⟩ <;> decide +kernel
+
+theorem re_tags :
+    partReOf "TAG".toList = some (altLits tagWords) ∧
+    partReOf "PYTAG".toList = some (altLits pytagWords) := by
+  refine ⟨?_, ?_⟩ <;> decide +kernel
+
+theorem tagWords_ok : Gen.validReleaseTagValues.all (fun t => wordsOk tagWords t) = true := by
+  decide +kernel
+
+theorem pytagWords_ok : Gen.validReleaseTagValues.all (fun t =>
+    match lookup t Gen.pep440TagByTag with
+    | some p => p.isEmpty || wordsOk pytagWords p
+    | none => true) = true := by
+  decide +kernel
+
+theorem tag_part (v : VInfo) (hok : tagOk v = true) (rx : Re) (hrx : partReOf "TAG".toList = some rx)
+    (nd : Bool) : PartHead v "TAG".toList rx nd := by
+  rw [re_tags.1] at hrx
+  have hrx := (Option.some.inj hrx).symm
+  subst hrx
+  have h := tagWords_ok
+  simp only [List.all_eq_true] at h
+  simp only [tagOk, List.contains_iff_mem] at hok
+  have hw := h v.tag hok
+  exact ⟨v.tag, rfl, (altLits_head' tagWords v.tag [] hw).2,
+    fun k _ => (altLits_head' tagWords v.tag k hw).1⟩
+
+theorem pytag_part (v : VInfo) (hok : pytagOk v = true) (rx : Re)
+    (hrx : partReOf "PYTAG".toList = some rx) (nd : Bool) : PartHead v "PYTAG".toList rx nd := by
+  rw [re_tags.2] at hrx
+  have hrx := (Option.some.inj hrx).symm
+  subst hrx
+  have h := pytagWords_ok
+  simp only [List.all_eq_true] at h
+  simp only [pytagOk, tagOk, Bool.and_eq_true, List.contains_iff_mem, beq_iff_eq,
+    Bool.not_eq_true', List.isEmpty_eq_false_iff] at hok
+  obtain ⟨⟨hmem, hlk⟩, hne⟩ := hok
+  have hw := h v.tag hmem
+  rw [hlk] at hw
+  simp only [Bool.or_eq_true, List.isEmpty_iff] at hw
+  have hw : wordsOk pytagWords v.pytag = true := by
+    rcases hw with hw | hw
+    · exact absurd hw hne
+    · exact hw
+  exact ⟨v.pytag, rfl, hne, fun k _ => (altLits_head' pytagWords v.pytag k hw).1⟩
+
+theorem fc_MM : finCheck "MM".toList 1 12 = true := by decide +kernel
+theorem fc_0M : finCheck "0M".toList 1 12 = true := by decide +kernel
+theorem fc_DD : finCheck "DD".toList 1 31 = true := by decide +kernel
+theorem fc_0D : finCheck "0D".toList 1 31 = true := by decide +kernel
+theorem fc_JJJ : finCheck "JJJ".toList 1 366 = true := by decide +kernel
+theorem fc_00J : finCheck "00J".toList 1 366 = true := by decide +kernel
+theorem fc_Q : finCheck "Q".toList 1 4 = true := by decide +kernel
+theorem fc_VV : finCheck "VV".toList 1 53 = true := by decide +kernel
+theorem fc_0V : finCheck "0V".toList 1 53 = true := by decide +kernel
+theorem fc_WW : finCheck "WW".toList 0 52 = true := by decide +kernel
+theorem fc_0W : finCheck "0W".toList 0 52 = true := by decide +kernel
+theorem fc_UU : finCheck "UU".toList 0 52 = true := by decide +kernel
+theorem fc_0U : finCheck "0U".toList 0 52 = true := by decide +kernel
+theorem fc_YY : finCheck "YY".toList 2001 2099 = true := by decide +kernel
+theorem fc_GG : finCheck "GG".toList 2001 2099 = true := by decide +kernel
+theorem fc_0Y : finCheck "0Y".toList 2000 2099 = true := by decide +kernel
+theorem fc_0G : finCheck "0G".toList 2000 2099 = true := by decide +kernel
+
+theorem lookup_mem {α} (k : Str) : ∀ (l : List (Str × α)) (x : α), lookup k l = some x → (k, x) ∈ l := by
+  intro l
+  induction l with
+  | nil => intro x h; cases h
+  | cons p l ih =>
+    intro x h
+    obtain ⟨k', y⟩ := p
+    simp only [lookup] at h
+    split at h
+    · next e => subst e; cases h; simp
+    · exact List.mem_cons_of_mem _ (ih x h)
+
+/-- THE PER-PART LEMMA: every supported part, on every value of its domain -/
+theorem part_head (v : VInfo) (n : Str) (hok : partOk v n = true) (rx : Re)
+    (hrx : partReOf n = some rx) : PartHead v n rx (needND n) := by
+  unfold partOk at hok
+  cases hl : lookup n partDoms with
+  | none => rw [hl] at hok; cases hok
+  | some d =>
+    rw [hl] at hok
+    have hmem := lookup_mem n partDoms d hl
+    simp only [partDoms, List.mem_cons, Prod.mk.injEq, List.not_mem_nil, or_false] at hmem
+    rcases hmem with ⟨rfl, rfl⟩ | ⟨rfl, rfl⟩ | ⟨rfl, rfl⟩ | ⟨rfl, rfl⟩ | ⟨rfl, rfl⟩ | ⟨rfl, rfl⟩ |
+      ⟨rfl, rfl⟩ | ⟨rfl, rfl⟩ | ⟨rfl, rfl⟩ | ⟨rfl, rfl⟩ | ⟨rfl, rfl⟩ | ⟨rfl, rfl⟩ | ⟨rfl, rfl⟩ |
+      ⟨rfl, rfl⟩ | ⟨rfl, rfl⟩ | ⟨rfl, rfl⟩ | ⟨rfl, rfl⟩ | ⟨rfl, rfl⟩ | ⟨rfl, rfl⟩ | ⟨rfl, rfl⟩ |
+      ⟨rfl, rfl⟩ | ⟨rfl, rfl⟩ | ⟨rfl, rfl⟩ | ⟨rfl, rfl⟩ | ⟨rfl, rfl⟩ | ⟨rfl, rfl⟩ | ⟨rfl, rfl⟩ |
+      ⟨rfl, rfl⟩ | ⟨rfl, rfl⟩
+    · exact year_part _ "year_y".toList (·.yearY) (by decide) (by decide) (fun _ => rfl) re_year4.1 v hok rx hrx _
+    · exact cal_part _ "year_y".toList (·.yearY) 2001 2099 (by decide) (fun _ => rfl) fc_YY v hok rx hrx _ (by decide)
+    · exact cal_part _ "year_y".toList (·.yearY) 2000 2099 (by decide) (fun _ => rfl) fc_0Y v hok rx hrx _ (by decide)
+    · exact year_part _ "year_g".toList (·.yearG) (by decide) (by decide) (fun _ => rfl) re_year4.2 v hok rx hrx _
+    · exact cal_part _ "year_g".toList (·.yearG) 2001 2099 (by decide) (fun _ => rfl) fc_GG v hok rx hrx _ (by decide)
+    · exact cal_part _ "year_g".toList (·.yearG) 2000 2099 (by decide) (fun _ => rfl) fc_0G v hok rx hrx _ (by decide)
+    · exact cal_part _ "quarter".toList (·.quarter) 1 4 (by decide) (fun _ => rfl) fc_Q v hok rx hrx _ (by decide)
+    · exact cal_part _ "month".toList (·.month) 1 12 (by decide) (fun _ => rfl) fc_MM v hok rx hrx _ (by decide)
+    · exact cal_part _ "month".toList (·.month) 1 12 (by decide) (fun _ => rfl) fc_0M v hok rx hrx _ (by decide)
+    · exact cal_part _ "dom".toList (·.dom) 1 31 (by decide) (fun _ => rfl) fc_DD v hok rx hrx _ (by decide)
+    · exact cal_part _ "dom".toList (·.dom) 1 31 (by decide) (fun _ => rfl) fc_0D v hok rx hrx _ (by decide)
+    · exact cal_part _ "doy".toList (·.doy) 1 366 (by decide) (fun _ => rfl) fc_JJJ v hok rx hrx _ (by decide)
+    · exact cal_part _ "doy".toList (·.doy) 1 366 (by decide) (fun _ => rfl) fc_00J v hok rx hrx _ (by decide)
+    · exact cal_part _ "week_w".toList (·.weekW) 0 52 (by decide) (fun _ => rfl) fc_WW v hok rx hrx _ (by decide)
+    · exact cal_part _ "week_w".toList (·.weekW) 0 52 (by decide) (fun _ => rfl) fc_0W v hok rx hrx _ (by decide)
+    · exact cal_part _ "week_u".toList (·.weekU) 0 52 (by decide) (fun _ => rfl) fc_UU v hok rx hrx _ (by decide)
+    · exact cal_part _ "week_u".toList (·.weekU) 0 52 (by decide) (fun _ => rfl) fc_0U v hok rx hrx _ (by decide)
+    · exact cal_part _ "week_v".toList (·.weekV) 1 53 (by decide) (fun _ => rfl) fc_VV v hok rx hrx _ (by decide)
+    · exact cal_part _ "week_v".toList (·.weekV) 1 53 (by decide) (fun _ => rfl) fc_0V v hok rx hrx _ (by decide)
+    · exact nat_part _ "major".toList (·.major) (by decide) (by decide) (fun _ => rfl) re_digitsPlus.1 v rx hrx _ (by decide)
+    · exact nat_part _ "minor".toList (·.minor) (by decide) (by decide) (fun _ => rfl) re_digitsPlus.2.1 v rx hrx _ (by decide)
+    · exact nat_part _ "patch".toList (·.patch) (by decide) (by decide) (fun _ => rfl) re_digitsPlus.2.2.1 v rx hrx _ (by decide)
+    · exact nat_part _ "num".toList (·.num) (by decide) (by decide) (fun _ => rfl) re_digitsPlus.2.2.2.1 v rx hrx _ (by decide)
+    · exact nat_part _ "inc0".toList (·.inc0) (by decide) (by decide) (fun _ => rfl) re_digitsPlus.2.2.2.2.1 v rx hrx _ (by decide)
+    · exact pos_part _ "inc1".toList (·.inc1) (by decide) (by decide) (fun _ => rfl) re_posInt.1 v
+        (by simpa using hok) rx hrx _ (by decide)
+    · exact build_part v hok re_digitsPlus.2.2.2.2.2 rx hrx _ (by decide)
+    · exact bld_part v (by simp only [Bool.and_eq_true, decide_eq_true_eq] at hok; exact hok.2)
+        re_posInt.2 rx hrx _ (by decide)
+    · exact tag_part v hok rx hrx _
+    · exact pytag_part v hok rx hrx _
+
 end BV
